@@ -34,15 +34,21 @@ pub fn perform(a: &dyn Api, c: &Call) -> String {
     match c.kind {
         0 => format!("{:?}", a.validate(&c.text)),
         1 => a.replace(&c.text, c.t),
-        _ => {
+        2 => {
             let (toks, occs) = a.scan_text(&c.text, c.t);
             format!("{}|{}", toks.iter().filter(|t| t.nan).count(), api::show_occs(&occs))
+        }
+        _ => {
+            // lazy search consumed only partially, then dropped (whatever it had started to read is abandoned)
+            let toks: Vec<crate::api::IdTok> = c.text.split_whitespace().enumerate().map(|(i, w)| crate::api::IdTok::new(i as u64, w)).collect();
+            let first = a.find_iter_first(&toks, c.t, 1);
+            api::show_occs(&first)
         }
     }
 }
 
 fn show_call(c: &Call) -> String {
-    format!("{} {}({:?}, {})", LANGS[c.lang], ["text2digits", "replace_numbers_in_text", "find_numbers"][c.kind as usize], c.text, c.t)
+    format!("{} {}({:?}, {})", LANGS[c.lang], ["text2digits", "replace_numbers_in_text", "find_numbers", "find_numbers_iter(first occurrence only, then dropped)"][(c.kind as usize).min(3)], c.text, c.t)
 }
 
 fn call_json(c: &Call) -> J {
@@ -75,10 +81,12 @@ pub fn make_script(rng: &mut Rng, ls: &LangSet, n: usize, small: bool) -> Vec<Ca
             7 if !small => super::c03::Input::Big { class: "compound".into(), size: 40 + rng.usize(400) }.materialize(code),
             _ => gen::hostile_text(rng, lex, if small { 4 } else { 8 }),
         };
-        let kinds: &[u8] = match rng.below(4) {
+        let kinds: &[u8] = match rng.below(6) {
             0 => &[0],
             1 => &[1, 1, 1],
             2 => &[2, 1],
+            3 => &[3, 1],
+            4 => &[3, 2, 0],
             _ => &[0, 1, 2, 1],
         };
         let ts = [0.0, 10.0, 0.0, 3.0];
@@ -118,6 +126,45 @@ pub fn history_workload(ctx: &Ctx, rep: &mut Report, n_calls: usize, fresh_every
             if ra != rf {
                 rep.violation("history:fresh", jobj! {"kind" => "history", "index" => i, "call" => call_json(c)}, format!("call #{} {}: the reused interpreter gives {:?} after {} earlier calls, a freshly built one gives {:?}", i, show_call(c), ra, i, rf));
             }
+        }
+    }
+    // order independence: the same calls in a different order, on other interpreters, in another thread (state that is
+    // per thread or per process rather than per interpreter is invisible to the comparisons above: every party shares it)
+    let n_perm = script.len().min(if ctx.quick() { 120_000 } else { 1_500_000 });
+    let sub: Vec<Call> = script[..n_perm].to_vec();
+    let mut order: Vec<usize> = (0..n_perm).collect();
+    rng.shuffle(&mut order);
+    let sub2 = sub.clone();
+    let order2 = order.clone();
+    let forward: Vec<String> = {
+        let a2: Vec<Box<dyn Api>> = api::all_concrete();
+        sub.iter().map(|c| perform(a2[c.lang].as_ref(), c)).collect()
+    };
+    let handle = std::thread::spawn(move || {
+        let a3: Vec<Box<dyn Api>> = LANGS.iter().map(|c| api::facade(c)).collect();
+        let mut out: Vec<(usize, String)> = Vec::with_capacity(order2.len());
+        for &i in &order2 {
+            out.push((i, perform(a3[sub2[i].lang].as_ref(), &sub2[i])));
+        }
+        out
+    });
+    match handle.join() {
+        Ok(permuted) => {
+            for (i, r) in permuted {
+                rep.count("history_calls_compared_across_two_call_orders");
+                if r != forward[i] {
+                    rep.violation(
+                        "history:order",
+                        jobj! {"kind" => "history", "index" => i, "call" => call_json(&sub[i])},
+                        format!("call {} gives {:?} when the script runs in order and {:?} when the same calls run in another order in another thread: the result depends on earlier calls", show_call(&sub[i]), forward[i], r),
+                    );
+                    break;
+                }
+            }
+        }
+        Err(_) => {
+            let (loc, msg) = crate::core::take_last_panic().unwrap_or(("?".into(), "?".into()));
+            rep.violation("history:panic", jobj! {"kind" => "panic", "during" => "permuted history"}, format!("the library panicked at {} ({}) while the history script ran in another order", loc, msg));
         }
     }
 }
@@ -398,6 +445,30 @@ pub fn silence_sweep(rep: &mut Report) {
     }
 }
 
+/// second part of the silent worker: rare paths (hostile texts, hinted token streams, degenerate and large inputs)
+pub fn silence_hostile(rep: &mut Report, n: usize) {
+    let ls = LangSet::new();
+    let mut rng = Rng::derive(0xC14, "C14-silence", 0);
+    for i in 0..n {
+        let code = LANGS[i % 7];
+        let lex = ls.lexicon(code);
+        let api = ls.api(code);
+        let input = super::c03::gen_input(&mut rng, lex, true, 2000);
+        let s = input.materialize(code);
+        let t = *rng.pick(&super::c03::THRESHOLDS);
+        let _ = std::panic::catch_unwind(std::panic::AssertUnwindSafe(|| super::c03::exercise(api, &s, t, rng.next_u64())));
+        if i % 5 == 0 {
+            let toks = crate::streams::gen_stream(&mut rng, lex, &crate::streams::StreamOpts::hinted(12));
+            let _ = std::panic::catch_unwind(std::panic::AssertUnwindSafe(|| {
+                let _ = api.find(&toks, t);
+                let _ = api.replace_stream(toks.clone(), t);
+            }));
+        }
+        rep.evaluations += 1;
+    }
+    rep.add("silence_hostile_inputs", n as u64);
+}
+
 /// child entries:
 ///   worker c14-threads <seed> <n_threads> <calls_per_thread> <small 0|1> <result_file>
 ///   worker c14-silence <result_file>
@@ -427,6 +498,8 @@ pub fn worker_silence(args: &[String]) -> i32 {
     let out = args.first().cloned().unwrap_or_default();
     let mut rep = Report::new();
     silence_sweep(&mut rep);
+    let n: usize = args.get(1).and_then(|s| s.parse().ok()).unwrap_or(40_000);
+    silence_hostile(&mut rep, n);
     rep.distinct.insert(1);
     rep.distinct.insert(2);
     legs::write_child_report(&out, &rep)
@@ -581,7 +654,7 @@ fn silence_leg(ctx: &Ctx, rep: &mut Report) {
     let result = format!("{}/harness/target/c14-silence-{}.json", ctx.verif_dir, std::process::id());
     let _ = std::fs::remove_file(&result);
     let mut c = Command::new(&bin);
-    c.args(["worker", "c14-silence", &result]);
+    c.args(["worker", "c14-silence", &result, &ctx.n(60_000, 600_000).to_string()]);
     let r = run_child(&mut c, 600);
     rep.eval(hash_bytes(&[b"silence"]), true);
     if !r.started || r.timed_out {
@@ -664,7 +737,7 @@ pub fn run(ctx: &Ctx) -> Outcome {
         let mut rng = Rng::derive(ctx.seed, "C14-threads", 0);
         J::Arr(make_script(&mut rng, &ls, 6, true).iter().map(call_json).collect())
     }});
-    let rule = "cases = API calls (text2digits / replace_numbers_in_text / find_numbers at thresholds 0,3,10) from scripts aimed at carried state (failing validations next to valid ones, the same text at different thresholds, annotator-state texts, long compounds, alternating languages); (1) one long-lived interpreter set vs a second one for every call and vs a freshly built interpreter for every 20th/50th call; (2) N threads replay pre-computed scripts on the same shared facade and concrete interpreter values, every result compared with the sequential reference, overlap measured by an in-flight counter; thorough: the same thread workload under ThreadSanitizer (-Zbuild-std), AddressSanitizer and Miri (3 threads, seeded schedules); (3) Send+Sync build probe; (4) a worker process with piped stdout/stderr applies every lexicon word in 7 digit states and converts the C01/C04/C05 corpora: zero bytes expected; non-trivial = every compared call";
+    let rule = "cases = API calls (text2digits / replace_numbers_in_text / find_numbers at thresholds 0,3,10) from scripts aimed at carried state (failing validations next to valid ones, the same text at different thresholds, annotator-state texts, long compounds, alternating languages); (1) one long-lived interpreter set vs a second one for every call and vs a freshly built interpreter for every 20th/50th call; (2) N threads replay pre-computed scripts on the same shared facade and concrete interpreter values, every result compared with the sequential reference, overlap measured by an in-flight counter; thorough: the same thread workload under ThreadSanitizer (-Zbuild-std), AddressSanitizer and Miri (3 threads, seeded schedules); (3) Send+Sync build probe; (4) a worker process with piped stdout/stderr applies every lexicon word in 7 digit states, converts the C01/C04/C05 corpora and runs the C03 hostile mix (degenerate, multi-byte, large inputs, hinted streams) through every entry point: zero bytes expected; non-trivial = every compared call";
     finish(
         ctx,
         rep,
